@@ -17,9 +17,10 @@ From GoGit Require Import Base.Out Base.GoInt Gen.C34 Model.PktLine Model.C35Utf
 Import ListNotations.
 
 (* ---------- ReadLine over a chunked reader ---------- *)
-Definition lines := list (rd * nat).
+(* what the decoders consume: the successive ReadLine results *)
+Definition lines := list rd.
 
-Fixpoint rl_all_go (fuel : nat) (r : reader) : lines :=
+Fixpoint rl_all_go (fuel : nat) (r : reader) : list (rd * nat) :=
   match fuel with
   | O => []
   | S f =>
@@ -30,17 +31,17 @@ Fixpoint rl_all_go (fuel : nat) (r : reader) : lines :=
     end
   end.
 (* all ReadLine results up to and including the first error (io.EOF at the end of the data) *)
-Definition rl_all (r : reader) : lines := rl_all_go (S (S (rlen r))) r.
+Definition rl_all (r : reader) : list (rd * nat) := rl_all_go (S (S (rlen r))) r.
 
 (* the next ReadLine result; past the recorded error every further read reports io.EOF *)
 Definition rl_next (ls : lines) : rd * lines :=
   match ls with
   | [] => (rd_fail PEeof, [])
-  | (d, _) :: r => (d, r)
+  | d :: r => (d, r)
   end.
 
-(* bytes left in the reader when a decoder returns having consumed all but ls' of ls *)
-Definition rl_rest (total : nat) (ls ls' : lines) : nat :=
+(* bytes left in the reader when a decoder returns with ls' of the results ls unread *)
+Definition rl_rest (total : nat) (ls : list (rd * nat)) (ls' : lines) : nat :=
   match (List.length ls - List.length ls')%nat with
   | O => total
   | S k => snd (nth k ls (rd_fail PEeof, O))
@@ -70,7 +71,7 @@ Definition caps2_add_values (l : caps) (key : bytes) (vals : list bytes) : caps 
 Fixpoint caps2_decode (ls : lines) (l : caps) : (Z * caps * lines) + v2err :=
   match ls with
   | [] => inl (0%Z, l, [])                           (* io.EOF: (pktline.Flush, nil) *)
-  | (d, _) :: r =>
+  | d :: r =>
     match rd_err d with
     | Some PEeof => inl (0%Z, l, r)
     | Some e => inr (V2Pkt e)
@@ -138,7 +139,7 @@ Definition lsargs_encode (a : lsargs) : option (list pkt) :=
 Fixpoint lsargs_decode (ls : lines) (a : lsargs) : (lsargs * lines) + v2err :=
   match ls with
   | [] => inl (a, [])
-  | (d, _) :: r =>
+  | d :: r =>
     match rd_err d with
     | Some PEeof => inl (a, r)
     | Some e => inr (V2Pkt e)
@@ -228,7 +229,7 @@ Definition fetchargs_line (line : bytes) (a : fetchargs) : option fetchargs :=
 Fixpoint fetchargs_decode (ls : lines) (a : fetchargs) : (fetchargs * lines) + v2err :=
   match ls with
   | [] => inl (a, [])
-  | (d, _) :: r =>
+  | d :: r =>
     match rd_err d with
     | Some PEeof => inl (a, r)
     | Some e => inr (V2Pkt e)
@@ -374,7 +375,7 @@ Definition parse_lsrefs_line (line : bytes) : option (list lsref) :=
 Fixpoint lsout_decode (ls : lines) (acc : list lsref) : (list lsref * lines) + v2err :=
   match ls with
   | [] => inl (acc, [])
-  | (d, _) :: r =>
+  | d :: r =>
     match rd_err d with
     | Some PEeof => inl (acc, r)
     | Some e => inr (V2Pkt e)
@@ -438,7 +439,7 @@ Definition fetchout_encode (o : fetchout) : option (list pkt) :=
 Fixpoint acks_decode (ls : lines) (a : list hash * bool) : (Z * (list hash * bool) * lines) + v2err :=
   match ls with
   | [] => inr (V2Pkt PEeof)
-  | (d, _) :: r =>
+  | d :: r =>
     match rd_err d with
     | Some e => inr (V2Pkt e)
     | None =>
@@ -459,7 +460,7 @@ Fixpoint acks_decode (ls : lines) (a : list hash * bool) : (Z * (list hash * boo
 Fixpoint shinfo_decode (ls : lines) (s : list hash * list hash) : (Z * (list hash * list hash) * lines) + v2err :=
   match ls with
   | [] => inr (V2Pkt PEeof)
-  | (d, _) :: r =>
+  | d :: r =>
     match rd_err d with
     | Some e => inr (V2Pkt e)
     | None =>
@@ -483,7 +484,7 @@ Fixpoint shinfo_decode (ls : lines) (s : list hash * list hash) : (Z * (list has
 Fixpoint wanted_decode (ls : lines) (w : list (bytes * hash)) : (Z * list (bytes * hash) * lines) + v2err :=
   match ls with
   | [] => inr (V2Pkt PEeof)
-  | (d, _) :: r =>
+  | d :: r =>
     match rd_err d with
     | Some e => inr (V2Pkt e)
     | None =>
@@ -504,7 +505,7 @@ Fixpoint wanted_decode (ls : lines) (w : list (bytes * hash)) : (Z * list (bytes
 Fixpoint uris_decode (ls : lines) (u : list bytes) : (Z * list bytes * lines) + v2err :=
   match ls with
   | [] => inr (V2Pkt PEeof)
-  | (d, _) :: r =>
+  | d :: r =>
     match rd_err d with
     | Some e => inr (V2Pkt e)
     | None =>
@@ -609,7 +610,7 @@ Definition o_fetchout (o : fetchout) : out :=
          OBool (fo_packfile o)].
 
 (* ( ok value rest ) with rest = bytes left unread in the reader *)
-Definition o_dec {A} (f : A -> out) (total : nat) (ls : lines) (r : (A * lines) + v2err) : out :=
+Definition o_dec {A} (f : A -> out) (total : nat) (ls : list (rd * nat)) (r : (A * lines) + v2err) : out :=
   match r with
   | inl (a, ls') => OOk [f a; ONat (rl_rest total ls ls')]
   | inr e => o_v2err e
@@ -620,18 +621,19 @@ Definition kind_of (k : string) : cargs :=
   if String.eqb k "lsrefs" then CALs lsargs_zero else if String.eqb k "fetch" then CAFetch fetchargs_zero else CANone.
 
 Definition v2_decode (msg : string) (r : reader) : out :=
-  let ls := rl_all r in
+  let rls := rl_all r in
+  let ls := map fst rls in
   let total := rlen r in
   if String.eqb msg "capadv" then
-    o_dec (fun x : Z * caps => OList [ONum (fst x); o_caps (snd x)]) total ls
+    o_dec (fun x : Z * caps => OList [ONum (fst x); o_caps (snd x)]) total rls
           (match capadv_decode ls with inl (v, l, r') => inl ((v, l), r') | inr e => inr e end)
   else if String.eqb msg "cmd-nil" || String.eqb msg "cmd-lsrefs" || String.eqb msg "cmd-fetch" then
-    o_dec (fun c => OList [OBytes (cr_command c); o_caps (cr_caps c); o_cargs (cr_args c)]) total ls
+    o_dec (fun c => OList [OBytes (cr_command c); o_caps (cr_caps c); o_cargs (cr_args c)]) total rls
           (cmdreq_decode (kind_of (if String.eqb msg "cmd-lsrefs" then "lsrefs" else if String.eqb msg "cmd-fetch" then "fetch" else "nil")) ls)
-  else if String.eqb msg "lsargs" then o_dec o_lsargs total ls (lsargs_decode ls lsargs_zero)
-  else if String.eqb msg "fetchargs" then o_dec o_fetchargs total ls (fetchargs_decode ls fetchargs_zero)
-  else if String.eqb msg "lsout" then o_dec (fun l => OList (map o_lsref l)) total ls (lsout_decode ls [])
-  else if String.eqb msg "fetchout" then o_dec o_fetchout total ls (fetchout_decode ls)
+  else if String.eqb msg "lsargs" then o_dec o_lsargs total rls (lsargs_decode ls lsargs_zero)
+  else if String.eqb msg "fetchargs" then o_dec o_fetchargs total rls (fetchargs_decode ls fetchargs_zero)
+  else if String.eqb msg "lsout" then o_dec (fun l => OList (map o_lsref l)) total rls (lsout_decode ls [])
+  else if String.eqb msg "fetchout" then o_dec o_fetchout total rls (fetchout_decode ls)
   else OErr "kind".
 
 Definition c35v2_dec (msg : string) (hex : string) (chunks : list N) : out :=
